@@ -67,7 +67,7 @@ Definition fresh_id {A} (l : list (Z * A)) : Z := min_free l 0 (length l).
 
 Record istate := { o_regs : list Z; o_gas : Z; o_mem : memory; o_mach : list (Z * machine) }.
 
-Inductive hexit := HCont | HPanic | HOog.
+Inductive hexit := XCont | XPanic | XOog.
 
 Inductive call := CMachine | CPeek | CPoke | CPages | CInvoke | CExpunge.
 
@@ -112,40 +112,40 @@ Definition upd (s : istate) (r : list Z) (g : Z) (m : memory) (ms : list (Z * ma
 
 (* result with only omega_7 changed *)
 Definition ret7 (s : istate) (g v : Z) : hexit * istate :=
-  (HCont, upd s (sreg (o_regs s) 7 v) g (o_mem s) (o_mach s)).
+  (XCont, upd s (sreg (o_regs s) 7 v) g (o_mem s) (o_mach s)).
 
 Definition bytesN (l : list Z) : bytes := map Z.to_N l.
 
 Definition call_machine (s : istate) (g : Z) : hexit * istate :=
   let r := o_regs s in
   let po := greg r 7 in let pz := greg r 8 in let i := greg r 9 in
-  if negb (range_ok readable (o_mem s) po pz) then (HPanic, upd s r g (o_mem s) (o_mach s))
+  if negb (range_ok readable (o_mem s) po pz) then (XPanic, upd s r g (o_mem s) (o_mach s))
   else
     match deblob (bytesN (rd_range (o_mem s) po (Z.to_nat pz))) with
     | None => ret7 s g R_HUH
     | Some p =>
       let n := fresh_id (o_mach s) in
-      (HCont, upd s (sreg r 7 n) g (o_mem s)
+      (XCont, upd s (sreg r 7 n) g (o_mem s)
                   (aset n {| mc_prog := p; mc_mem := empty_mem; mc_pc := i |} (o_mach s)))
     end.
 
 Definition call_peek (s : istate) (g : Z) : hexit * istate :=
   let r := o_regs s in
   let n := greg r 7 in let o := greg r 8 in let a := greg r 9 in let z := greg r 10 in
-  if negb (range_ok writable (o_mem s) o z) then (HPanic, upd s r g (o_mem s) (o_mach s))
+  if negb (range_ok writable (o_mem s) o z) then (XPanic, upd s r g (o_mem s) (o_mach s))
   else
     match aget n (o_mach s) with
     | None => ret7 s g R_WHO
     | Some mc =>
       if negb (range_ok readable (mc_mem mc) a z) then ret7 s g R_OOB
-      else (HCont, upd s (sreg r 7 R_OK) g
+      else (XCont, upd s (sreg r 7 R_OK) g
                        (wr_range (o_mem s) o (rd_range (mc_mem mc) a (Z.to_nat z))) (o_mach s))
     end.
 
 Definition call_poke (s : istate) (g : Z) : hexit * istate :=
   let r := o_regs s in
   let n := greg r 7 in let a := greg r 8 in let o := greg r 9 in let z := greg r 10 in
-  if negb (range_ok readable (o_mem s) a z) then (HPanic, upd s r g (o_mem s) (o_mach s))
+  if negb (range_ok readable (o_mem s) a z) then (XPanic, upd s r g (o_mem s) (o_mach s))
   else
     match aget n (o_mach s) with
     | None => ret7 s g R_WHO
@@ -153,7 +153,7 @@ Definition call_poke (s : istate) (g : Z) : hexit * istate :=
       if negb (range_ok writable (mc_mem mc) o z) then ret7 s g R_OOB
       else
         let u := wr_range (mc_mem mc) o (rd_range (o_mem s) a (Z.to_nat z)) in
-        (HCont, upd s (sreg r 7 R_OK) g (o_mem s)
+        (XCont, upd s (sreg r 7 R_OK) g (o_mem s)
                     (aset n {| mc_prog := mc_prog mc; mc_mem := u; mc_pc := mc_pc mc |} (o_mach s)))
     end.
 
@@ -167,7 +167,7 @@ Definition call_pages (s : istate) (g : Z) : hexit * istate :=
     else if (2 <? md) && negb (pages_all readable (mc_mem mc) p (Z.to_nat c)) then ret7 s g R_HUH
     else
       let u := set_pages (mc_mem mc) p (Z.to_nat c) md in
-      (HCont, upd s (sreg r 7 R_OK) g (o_mem s)
+      (XCont, upd s (sreg r 7 R_OK) g (o_mem s)
                   (aset n {| mc_prog := mc_prog mc; mc_mem := u; mc_pc := mc_pc mc |} (o_mach s)))
   end.
 
@@ -187,7 +187,7 @@ Definition window (s' : st) : list Z := enc8 (gas s' mod W64) ++ flat_map enc8 (
 Definition call_invoke (s : istate) (g : Z) : option (hexit * istate) :=
   let r := o_regs s in
   let n := greg r 7 in let o := greg r 8 in
-  if negb (range_ok writable (o_mem s) o 112) then Some (HPanic, upd s r g (o_mem s) (o_mach s))
+  if negb (range_ok writable (o_mem s) o 112) then Some (XPanic, upd s r g (o_mem s) (o_mach s))
   else
     match aget n (o_mach s) with
     | None => Some (ret7 s g R_WHO)
@@ -198,7 +198,7 @@ Definition call_invoke (s : istate) (g : Z) : option (hexit * istate) :=
       match inner_run (mc_prog mc) (mc_pc mc) s0 with
       | None => None
       | Some (e, pc', s') =>
-        Some (HCont, upd s (invoke_regs r e) g (wr_range (o_mem s) o (window s'))
+        Some (XCont, upd s (invoke_regs r e) g (wr_range (o_mem s) o (window s'))
                          (aset n {| mc_prog := mc_prog mc; mc_mem := mem s'; mc_pc := pc' |} (o_mach s)))
       end
     end.
@@ -208,14 +208,14 @@ Definition call_expunge (s : istate) (g : Z) : hexit * istate :=
   let n := greg r 7 in
   match aget n (o_mach s) with
   | None => ret7 s g R_WHO
-  | Some mc => (HCont, upd s (sreg r 7 (mc_pc mc)) g (o_mem s) (adel n (o_mach s)))
+  | Some mc => (XCont, upd s (sreg r 7 (mc_pc mc)) g (o_mem s) (adel n (o_mach s)))
   end.
 
 (* every call costs 10 gas; when that cannot be paid the call is not made.
    [None] = the inner machine did not exit within its fuel (shown impossible: InnerVmP.inner_total) *)
 Definition hostcall (c : call) (s : istate) : option (hexit * istate) :=
   let g := o_gas s - 10 in
-  if g <? 0 then Some (HOog, upd s (o_regs s) g (o_mem s) (o_mach s))
+  if g <? 0 then Some (XOog, upd s (o_regs s) g (o_mem s) (o_mach s))
   else
     match c with
     | CMachine => Some (call_machine s g)
@@ -238,11 +238,11 @@ Definition with_regs (s : istate) (r : list Z) : istate := upd s r (o_gas s) (o_
 
 Fixpoint run_calls (h : list (call * list Z)) (s : istate) : option (hexit * istate) :=
   match h with
-  | [] => Some (HCont, s)
+  | [] => Some (XCont, s)
   | (c, args) :: t =>
     match hostcall c (with_regs s (set_args (o_regs s) 7 args)) with
     | None => None
-    | Some (HCont, s') => run_calls t s'
+    | Some (XCont, s') => run_calls t s'
     | Some (e, s') => Some (e, s')
     end
   end.
